@@ -222,11 +222,11 @@ CLAIMED = {
         "<= 6 colliding candidates): the returned directory is created by this call, did not exist, three successive calls return three "
         "different directories. Nine writers (write_to_fits/npy/jpg, to_fits/npy/txt/csv/png/jpg) with a symbolic exists(target): on no path "
         "is a write primitive reached for a target that may exist. apply_run_number over a symbolic set of used numbers, build_filenames "
-        "injective and complete over all save lists of 3 buckets x 3 formats, per-run suffixes disjoint, parallel index array a bijection, "
+        "injective and complete over all save lists of 3 buckets x 3 formats, per-run suffixes disjoint, "
         "save_to_files reports every request once and never overwrites. Contents: Outputs.save_to_file with recording writers and a symbolic image / "
         "pixel bucket over ordered format lists (all ordered pairs of fits/npy/jpg/png/txt plus longer lists): every lossless writer receives exactly "
         "the bucket (values, dtype), picture writers its 8-bit preview, the bucket is untouched. save_to_files under rotations of three save lists (same bucket in non-adjacent entries). Existence of a foreign path is re-sampled at every "
-        "observation (monotone), so a directory appearing between a test and the creation is covered; a non-terminating candidate loop is an obligation. End-to-end witness exposures (clusters / arrays / both, 1-2 (4) steps, with and without a FITS header of a raw uint16 frame on the detector): every reported npy / FITS file equals the result bucket.",
+        "observation (monotone), so a directory appearing between a test and the creation is covered; a non-terminating candidate loop is an obligation. End-to-end witness exposures (clusters / arrays / both, 1-2 (4) steps, with and without a FITS header of a raw uint16 frame on the detector): every reported npy / FITS file equals the result bucket. Witness observations with outputs (product grids 3x2, 2x2, 2x3, sequential lists; dask and sequential engine): every reported file exists, is reported for one run only and holds that run's bucket.",
         "Write primitives are recorders honouring their documented overwrite contract; the encoders themselves (astropy, numpy, PIL: bytes on disk) "
         "and the HDF5 writer are outside the symbolic claim (concrete replays write and read back real files); OS-level atomicity of mkdir assumed.",
         "dynamic symbolic execution of the real Python code (vx) + z3 Bool/LIA over a symbolic file system",
